@@ -113,6 +113,10 @@ func (g *GroupMod) UnmarshalBinary(data []byte) error {
 	for n < int(g.Header.Length) {
 		bkt := new(Bucket)
 		bkt.UnmarshalBinary(data[n:])
+		// Len() is a 16-bit sum over the decoded actions: it is 0 when that sum wraps, and the loop must advance.
+		if bkt.Len() == 0 {
+			return errors.New("a bucket in the group-mod reports length 0")
+		}
 		g.Buckets = append(g.Buckets, *bkt)
 		n += int(bkt.Len())
 	}
